@@ -102,7 +102,11 @@ def outcome(fn, seconds=2.0):
             cv = canon(e.value)
         except Exception as e2:  # noqa
             cv = "(uncanon)"
-        return ("err", cv, str(e.msg), str(e.pos))
+        try:
+            msg = str(e.msg)        # the message of `error v` is v itself: rendering it may run the program's _str_
+        except Exception:
+            msg = "(unrenderable)"
+        return ("err", cv, msg, str(e.pos))
     except CklSyntaxError as e:
         return ("syntax", str(e.msg), str(e.pos))
     except RecursionError as e:
